@@ -17,10 +17,10 @@ import (
 )
 
 var (
-	out   *bufio.Writer
-	tier  = flag.String("tier", "quick", "quick|thorough")
-	seed  = flag.Uint64("seed", 1, "PRNG seed")
-	shard = flag.Int("shard", 0, "shard index")
+	out    *bufio.Writer
+	tier   = flag.String("tier", "quick", "quick|thorough")
+	seed   = flag.Uint64("seed", 1, "PRNG seed")
+	shard  = flag.Int("shard", 0, "shard index")
 	nshard = flag.Int("nshard", 1, "number of shards")
 	caseNo int
 )
